@@ -409,6 +409,13 @@ macro_rules! impl_cmp {
                 return Err(Error::TypeError(format!("kan objecten met type {} en type {} niet vergelijken", self.tag(), rhs.tag())));
             }
 
+            // Arrays can not be compared (yet) and functions only for equality
+            if self.tag() == Type::Array
+                || (self.tag() == Type::Function && !matches!(stringify!($op), "==" | "!="))
+            {
+                return Err(Error::TypeError(format!("kan objecten met type {} niet vergelijken met {}", self.tag(), stringify!($op))));
+            }
+
             // Delegate actual comparison to PartialOrd/PartialEq implementation
             Ok(Object::bool(self $op rhs,))
         }
